@@ -91,7 +91,10 @@ func genCase(t *rapid.T) *Case {
 		case 2:
 			// a function named like a path segment (GET /users -> Users): its middleware name meets
 			// the names hz derives from the path prefixes of the groups
-			cand := rapid.SampledFrom([]string{"Users", "Ab", "V1", "Zq", "Zq0", "A1", "AB", "Users0", "AB0"}).Draw(t, "segmentLikeName")
+			cand := rapid.SampledFrom([]string{"Users", "Ab", "V1", "Zq", "Zq0", "A1", "AB", "Users0", "AB0",
+				// a name that is a prefix of another one's middleware name (List / ListMwStats: "_ListMw" is inside "_ListMwStatsMw");
+				// names whose snake form ends in a suffix the go tool gives a meaning to (create_test.go, download_windows.go)
+				"List", "ListMwStats", "CreateTest", "DownloadWindows", "GetArm64"}).Draw(t, "segmentLikeName")
 			if !usedNames[cand] {
 				name = cand
 			}
@@ -106,6 +109,26 @@ func genCase(t *rapid.T) *Case {
 	}
 	if len(c.Methods) == 0 {
 		c.Methods = []Method{{Name: "H0", Verb: "GET", Path: "/"}}
+	}
+	// handler names that meet the generator's own naming: drawn rarely by the name styles above, so a sixth of
+	// the cases is built around them
+	last := len(c.Methods) - 1
+	plain := func(i int) bool {
+		return !c.Methods[i].Extra && (i == last || !c.Methods[i+1].Extra)
+	}
+	switch rapid.IntRange(0, 11).Draw(t, "hostileNames") {
+	case 0:
+		// the update adds "List" to a middleware.go that already has "_ListMwStatsMw" ("_ListMw" is a prefix of it)
+		if last >= 1 && plain(0) && plain(last) && !usedNames["List"] && !usedNames["ListMwStats"] {
+			c.Methods[0].Name, c.Methods[last].Name = "ListMwStats", "List"
+			c.SnakeMiddleware, c.Update = true, true
+		}
+	case 1:
+		// one file per handler, named after it: create_test.go, download_windows.go, get_arm64.go
+		if plain(0) && !usedNames["CreateTest"] && !usedNames["DownloadWindows"] {
+			c.Methods[0].Name = rapid.SampledFrom([]string{"CreateTest", "DownloadWindows", "GetArm64"}).Draw(t, "goToolSuffix")
+			c.HandlerByMethod = true
+		}
 	}
 	return c
 }
